@@ -27,7 +27,7 @@ import (
 var rec = vev.For("C04")
 
 func TestMain(m *testing.M) {
-	rec.SetRule("(1) complete truth table on the real file server: resource state {absent,file,collection} x If-Match {unset,*,current,stale,other,6 malformed forms} x If-None-Match likewise x {PUT,DELETE}; (2) rapid: tag announced by PUT/GET/HEAD/PROPFIND for random names/contents is one string and works when sent back; (3) rapid: ConditionalMatch helper laws over arbitrary strings; (4) rapid: CalDAV/CardDAV PUT hands arbitrary header values to the backend unaltered. non-trivial = (1) a conditional header is set and the resource exists, (2) always, (3)/(4) the tag/value contains a quote, backslash, non-ASCII or control byte; distinct by canonical case")
+	rec.SetRule("(1) complete truth table on the real file server: resource state {absent,file,collection} x If-Match {unset,*,current,stale,other,the empty tag,6 malformed forms} x If-None-Match likewise x {PUT,DELETE}; (2) rapid: tag announced by PUT/GET/HEAD/PROPFIND for random names/contents is one string and works when sent back; (3) rapid: ConditionalMatch helper laws over arbitrary strings; (4) rapid: CalDAV/CardDAV PUT hands arbitrary header values to the backend unaltered. non-trivial = (1) a conditional header is set and the resource exists, (2) always, (3)/(4) the tag/value contains a quote, backslash, non-ASCII or control byte; distinct by canonical case")
 	rec.Assume("a stale tag is produced by rewriting the file with a different size (entity tags contain mtime+size, ext4 mtimes are jiffy-granular)", "header values in (4) are single-line field values without leading/trailing blanks, as net/http delivers them", "the current/stale tag of a collection cannot be obtained through the protocol and is not used")
 	vev.Main(m)
 }
@@ -118,11 +118,13 @@ func symClass(v string) string {
 		return "stale"
 	case `"other"`:
 		return "other"
+	case `""`:
+		return "empty-tag"
 	}
 	return "malformed"
 }
 
-var condValues = []string{"", "*", "$CUR", "$STALE", `"other"`, "abc", `W/"x"`, `"a", "b"`, `"abc`, `'a'`, "`abc`"}
+var condValues = []string{"", "*", "$CUR", "$STALE", `"other"`, `""`, "abc", `W/"x"`, `"a", "b"`, `"abc`, `'a'`, "`abc`"}
 
 func TestTruthTable(t *testing.T) {
 	if vev.ReplayFile() != "" {
